@@ -1391,14 +1391,19 @@ def launch_analyse(cfg: dict[str, Any], run: Any) -> dict[str, Any]:
                             ep["labels"].append(["wClear", wid])
                             wphase[tid] = "bind"
                     elif ph == "bound":
-                        pass  # `entry = os.lstat(path)` right after bind: the worker's own identity
+                        if ev[3] is None:  # `entry = os.lstat(path)` right after bind: the fresh socket is already gone
+                            wphase[tid] = "lost"
+                        # else: the worker's own identity
                     elif ph == "exit":
                         ep["labels"].append(["wStat", wid])
                         wphase[tid] = "exit-stat"
                     else:
                         anomalies.append(f"worker lstat in phase {ph}")
                 elif k == "fs-unlink":
-                    if ph == "clear":
+                    if ph == "clear" and not ev[3]:
+                        # the entry vanished between `_unlink_stale_unix_socket`'s lstat and unlink: FileNotFoundError, the worker dies
+                        wphase[tid] = "lost"
+                    elif ph == "clear":
                         ep["labels"].append(["wClear", wid])
                         wphase[tid] = "bind"
                     elif ph == "exit-stat":
@@ -1529,7 +1534,12 @@ def launch_analyse(cfg: dict[str, Any], run: Any) -> dict[str, Any]:
             elif k == "w-announce":
                 ep["labels"].append(["wAnnounce", wid])
             elif k == "w-dead":
-                if wphase.get(tid) != "dead":
+                if wphase.get(tid) == "lost" and ev[4] == "FileNotFoundError":
+                    # the path changed under the starting worker (only an exit-time unlink of a predecessor can do that): the model's
+                    # `wLost`, enabled exactly when the path no longer names what the worker expects
+                    ep["labels"].append(["wLost", wid])
+                    ep["events"].append(["exit", wid])
+                elif wphase.get(tid) != "dead":
                     anomalies.append(f"worker {wid} died ({ev[4]}) in phase {wphase.get(tid)}")
                 wphase[tid] = "dead"
             elif k == "w-bind-failed":
